@@ -12,6 +12,8 @@
     key_buffer_empty_when_done     reset() at the next start drops nothing
     never_double_exit              "Return value already set" cannot happen
     no_key_stuck_buf, dispatch_total, processKeys_stable   progress / termination
+    cpr_leaves_arg_alone, key_after_cpr_same_as_without    a CPR response changes neither the numeric
+                                   argument / key buffer / is_repeat information nor what the next key does
 -/
 import Ptk.Model.C17Buf
 import Ptk.Props.C17
@@ -846,9 +848,9 @@ example : (run tbl (St.init ed0)
     [.start, .write [k 'a', cX, .cpr, cX, k 'b', .accept], .read 9]).kp.trace =
     [.call [k 'a'] false, .call [.cpr] false, .call [cX, cX] false, .call [k 'b'] false,
      .call [.accept] true] := by decide
--- c-x followed by a key without binding: c-x is dropped, the key is dispatched on its own
+-- c-x followed by a key without binding: c-x gets its own (ignore) handler, then the key
 example : (run tbl (St.init ed0) [.start, .write [cX, k 'q'], .read 9]).kp.trace =
-    [.drop cX, .call [k 'q'] false] := by decide
+    [.call [cX] false, .call [k 'q'] false] := by decide
 -- escape Enter: a two-key binding that accepts
 example : (run tbl (St.init ed0) [.start, .write [esc, .accept, k 'z'], .read 9]).kp.trace =
     [.call [esc, .accept] true] ∧
@@ -886,5 +888,155 @@ example : (dispatch Emacs.tbl false
   decide
 
 end examples
+
+/-! ### a CPR response is invisible to the keys typed around it -/
+
+/-- the CPR binding only talks to the renderer: handler-visible state, result and numeric argument
+    are left alone (key_binding/bindings/cpr.py) -/
+def CprInert (T : Tbl σ) : Prop :=
+  ∀ ed, T.exact ed [.cpr] = true → T.handler ed none [.cpr] = ⟨ed, Eff.stay, none⟩
+
+/-- everything in the key processor except the dispatch trace -/
+def KP.sameCore (p p' : KP σ) : Prop :=
+  p'.queue = p.queue ∧ p'.buffer = p.buffer ∧ p'.done = p.done ∧ p'.crashed = p.crashed ∧
+  p'.ed = p.ed ∧ p'.arg = p.arg ∧ p'.prev = p.prev
+
+theorem KP.sameCore.refl (p : KP σ) : p.sameCore p := ⟨rfl, rfl, rfl, rfl, rfl, rfl, rfl⟩
+theorem KP.sameCore.trans {a b c : KP σ} (h1 : a.sameCore b) (h2 : b.sameCore c) : a.sameCore c := by
+  obtain ⟨a1, a2, a3, a4, a5, a6, a7⟩ := h1
+  obtain ⟨b1, b2, b3, b4, b5, b6, b7⟩ := h2
+  exact ⟨b1.trans a1, b2.trans a2, b3.trans a3, b4.trans a4, b5.trans a5, b6.trans a6, b7.trans a7⟩
+
+/-- **A CPR response leaves the pending numeric argument alone** — and the key buffer, the
+    previous key sequence (`is_repeat`), the handler-visible state and the result: only the
+    dispatch trace records it. -/
+theorem cpr_leaves_arg_alone (T : Tbl σ) (hT : CprInert T) (p : KP σ) :
+    p.sameCore (processCpr T p) := by
+  unfold processCpr
+  split
+  · rename_i hx
+    rw [hT p.ed hx]
+    exact ⟨rfl, rfl, rfl, rfl, rfl, rfl, rfl⟩
+  · exact KP.sameCore.refl p
+
+/-- two key processors that differ in the dispatch trace only -/
+theorem sameCore_iff (p p' : KP σ) : p.sameCore p' ↔ ∃ t, p' = { p with trace := t } := by
+  constructor
+  · intro h
+    obtain ⟨q, b, d, c, t, e, a, pv⟩ := p
+    obtain ⟨q', b', d', c', t', e', a', pv'⟩ := p'
+    obtain ⟨h1, h2, h3, h4, h5, h6, h7⟩ := h
+    simp only at h1 h2 h3 h4 h5 h6 h7
+    subst h1 h2 h3 h4 h5 h6 h7
+    exact ⟨t', rfl⟩
+  · rintro ⟨t, rfl⟩; exact ⟨rfl, rfl, rfl, rfl, rfl, rfl, rfl⟩
+
+theorem callHandler_core (T : Tbl σ) {p p' : KP σ} (h : p.sameCore p') (ks : List Key) :
+    (callHandler T p ks).sameCore (callHandler T p' ks) := by
+  obtain ⟨t, rfl⟩ := (sameCore_iff p p').1 h
+  unfold callHandler
+  simp only []
+  generalize T.handler p.ed p.arg ks = o
+  obtain ⟨ed', eff, a'⟩ := o
+  cases eff
+  · exact ⟨rfl, rfl, rfl, rfl, rfl, rfl, rfl⟩
+  · simp only []
+    split <;> exact ⟨rfl, rfl, rfl, rfl, rfl, rfl, rfl⟩
+
+theorem retryStep_core (T : Tbl σ) {p p' : KP σ} (h : p.sameCore p') :
+    (retryStep T p).sameCore (retryStep T p') := by
+  obtain ⟨t, rfl⟩ := (sameCore_iff p p').1 h
+  unfold retryStep
+  simp only []
+  split
+  · rename_i i _
+    obtain ⟨c1, c2, c3, c4, c5, c6, c7⟩ := callHandler_core T h (p.buffer.take i)
+    exact ⟨c1, rfl, c3, c4, c5, c6, c7⟩
+  · split
+    · exact h
+    · exact ⟨rfl, rfl, rfl, rfl, rfl, rfl, rfl⟩
+
+/-- `_process` does not look at what was dispatched before -/
+theorem dispatchFuel_core (T : Tbl σ) : ∀ (fuel : Nat) (flush : Bool) (p p' : KP σ), p.sameCore p' →
+    ((dispatchFuel T fuel flush p).isSome = (dispatchFuel T fuel flush p').isSome) ∧
+    ∀ r r', dispatchFuel T fuel flush p = some r → dispatchFuel T fuel flush p' = some r' →
+      r.sameCore r' := by
+  intro fuel
+  induction fuel with
+  | zero => intro _ p p' _; simp [dispatchFuel]
+  | succ fuel ih =>
+    intro flush p p' h
+    obtain ⟨t, rfl⟩ := (sameCore_iff p p').1 h
+    simp only [dispatchFuel]
+    have hpre : isPrefix T flush { p with trace := t } = isPrefix T flush p := rfl
+    rw [hpre]
+    generalize isPrefix T flush p = pre
+    generalize T.exact p.ed p.buffer = ex
+    by_cases hb : p.buffer.isEmpty = true
+    · simp only [hb, if_true]
+      exact ⟨rfl, fun r r' e e' => by cases e; cases e'; exact h⟩
+    · simp only [hb, if_false]
+      by_cases h1 : (!pre && ex) = true
+      · simp only [h1, if_true]
+        refine ⟨rfl, fun r r' e e' => ?_⟩
+        cases e; cases e'
+        obtain ⟨c1, c2, c3, c4, c5, c6, c7⟩ := callHandler_core T h p.buffer
+        exact ⟨c1, rfl, c3, c4, c5, c6, c7⟩
+      · simp only [h1, if_false]
+        by_cases h2 : (!pre && !ex) = true
+        · simp only [h2, if_true]
+          have r := retryStep_core T h
+          obtain ⟨r1, r2, r3, r4, r5, r6, r7⟩ := r
+          simp only [r2, r3]
+          by_cases h3 : (!(retryStep T p).buffer.isEmpty && (retryStep T p).done) = true
+          · simp only [h3, if_true]
+            refine ⟨rfl, fun x x' e e' => ?_⟩
+            cases e; cases e'
+            exact ⟨by simp [r1], rfl, rfl, r4, r5, r6, r7⟩
+          · simp only [h3, if_false]
+            exact ih false _ _ (retryStep_core T h)
+        · simp only [h2, if_false]
+          exact ⟨rfl, fun r r' e e' => by cases e; cases e'; exact h⟩
+
+theorem dispatch_core (T : Tbl σ) (flush : Bool) {p p' : KP σ} (h : p.sameCore p') :
+    (dispatch T flush p).sameCore (dispatch T flush p') := by
+  unfold dispatch
+  obtain ⟨hs, hr⟩ := dispatchFuel_core T (p.buffer.length + 1) flush p p' h
+  rw [h.2.1]
+  cases e : dispatchFuel T (p.buffer.length + 1) flush p with
+  | none =>
+    rw [e] at hs
+    cases e' : dispatchFuel T (p.buffer.length + 1) flush p' with
+    | none => simpa using h
+    | some r' => rw [e'] at hs; simp at hs
+  | some r =>
+    rw [e] at hs
+    cases e' : dispatchFuel T (p.buffer.length + 1) flush p' with
+    | none => rw [e'] at hs; simp at hs
+    | some r' => simpa using hr r r' e e'
+
+theorem send_core (T : Tbl σ) {p p' : KP σ} (h : p.sameCore p') (k : QK) :
+    (send T p k).sameCore (send T p' k) := by
+  obtain ⟨t, rfl⟩ := (sameCore_iff p p').1 h
+  cases k with
+  | none => exact dispatch_core T true h
+  | some key => exact dispatch_core T false ⟨rfl, rfl, rfl, rfl, rfl, rfl, rfl⟩
+
+/-- **What a key does is the same with and without a CPR response in front of it** (numeric
+    argument, key buffer, `is_repeat` information and editor state included): this is the
+    statement that the seeded change `if is_cpr and self.key_buffer:` violates. -/
+theorem key_after_cpr_same_as_without (T : Tbl σ) (hT : CprInert T) (p : KP σ) (k : QK) :
+    (send T p k).sameCore (send T (processCpr T p) k) :=
+  send_core T (cpr_leaves_arg_alone T hT p) k
+
+theorem emacs_cprInert : CprInert Emacs.tbl := by intro ed _; rfl
+
+-- `a escape-3 CPR x`: the argument survives the CPR response and `x` is inserted three times
+example : (run Emacs.tbl (St.init ⟨⟨[], 0⟩, false⟩)
+    [.start, .write [.other 97, .other Emacs.kEsc, .other 51, .cpr, .other 120, .accept], .read 9]).kp.ed.e.text
+    = ['a', 'x', 'x', 'x'] := by decide
+example : (run Emacs.tbl (St.init ⟨⟨[], 0⟩, false⟩)
+    [.start, .write [.other 97, .other Emacs.kEsc, .other 51, .cpr], .read 9]).kp.arg = some 3 := by decide
+
 
 end Ptk.C17.Buf
